@@ -104,6 +104,20 @@ def make_replay(prop, oid, details, repo, tier, unit_results, kx_res):
     path = os.path.join(VERIF, 'replays', '%s-%s-%d.json' % (prop, re.sub(r'[^A-Za-z0-9_.-]', '_', oid), int(time.time())))
     rec = {'property': prop, 'obligation': oid, 'tier': tier, 'verifier_output': details, 'tree_hash': kxrun.tree_hash(repo)}
     found = False
+    nxp = os.path.join(VERIF, 'nx', 'units', oid.split('/')[0] + '.json')
+    if os.path.exists(nxp):
+        # native execution of the real code already produced the failing input: it is in the panic message
+        with open(nxp) as f:
+            nd = json.load(f)
+        rec['engine'] = 'NX'
+        rec['crate'] = nd['crate']
+        rec['test'] = next((t['name'] for t in nd['tests'] if t['name'].split('::')[-1] == oid.split('/')[1]), None)
+        rec['failing_input'] = details
+        rec['rerun'] = 'in a work copy prepared by lib/kxrun.prepare: RUSTFLAGS="--cfg verif_nx" cargo test -p %s --lib --offline -- %s' % (nd['crate'], rec['test'])
+        rec['replayed_against_real_code'] = True
+        with open(path, 'w') as f:
+            json.dump(rec, f, indent=1)
+        return path, True
     unit, desc, h = _harness_of(oid)
     if desc is not None and h is not None:
         rec['engine'] = 'KX'
@@ -171,6 +185,21 @@ def run_replay(path):
                 return 1
             print('replay did not fail on this tree')
             return 0
+        finally:
+            shutil.rmtree(work, ignore_errors=True)
+    if rec.get('engine') == 'NX':
+        import nxrun
+        work = os.path.join(WORK, 'replay-%d' % os.getpid())
+        try:
+            kxrun.prepare(repo, work)
+            r = nxrun.run_tests(work, rec['crate'], [])
+            hit = [v for k, v in r['tests'].items() if k.endswith('::' + rec['test'])]
+            if hit and hit[0]['status'] == 'FAILED':
+                print(hit[0].get('message', '')[:2000])
+                print('VIOLATION property=%s replay=%s' % (rec['property'], path))
+                return 1
+            print('stand-in test passes on this tree' if hit else 'test not found')
+            return 0 if hit else 2
         finally:
             shutil.rmtree(work, ignore_errors=True)
     # VX (or KX without a playback test): re-run the unit and report the obligation
